@@ -337,11 +337,17 @@ pub fn main(subjects: Vec<Box<dyn DynSubject>>, lay: (Layouts, BTreeMap<String, 
                         tier,
                         seed,
                         prop: prop.clone(),
-                        cases: default_cases,
+                        // values of tens of thousands of components (a 66 KB zero-copy structure): fewer of them
+                        cases: match vmodel::val::val_weight(&u, &u.subjects[i], 0) {
+                            w if w >= 20_000 => default_cases.min(3),
+                            w if w >= 2_000 => default_cases.min(16),
+                            _ => default_cases,
+                        },
                         tmp: tmp.clone(),
                         known: &known,
                     };
                     let mut rep = Report::default();
+                    let t_subject = std::time::Instant::now();
                     if std::env::var_os("VERIF_TRACE").is_some() {
                         eprintln!("SUBJECT {} {}", i, subjects[i].name());
                     }
@@ -392,6 +398,9 @@ pub fn main(subjects: Vec<Box<dyn DynSubject>>, lay: (Layouts, BTreeMap<String, 
                                 signature: "harness-panic".into(),
                             });
                         }
+                    }
+                    if std::env::var_os("VERIF_TIMES").is_some() {
+                        eprintln!("TIME {:.2}s subject {} {}", t_subject.elapsed().as_secs_f64(), i, &subjects[i].name()[..subjects[i].name().len().min(90)]);
                     }
                     local.merge(rep);
                 }
